@@ -109,6 +109,10 @@ def run(ctx):
         + [rnd.randint(2, 40) for _ in range(60 if thorough else 12)]
     for i, tot in enumerate(totals):
         progs.append(sp.array_control_program(rnd, 'actl%d' % i, tot))
+    # lagged control-rate parameters across the 16-channel clumps of LagControl
+    ltot = [1, 2, 15, 16, 17, 18, 31, 32, 33, 34, 47, 48, 49, 64, 65, 100] + [rnd.randint(1, 80) for _ in range(80 if thorough else 16)]
+    for i, tot in enumerate(ltot):
+        progs.append(sp.lag_control_program(rnd, 'lagc%d' % i, tot))
     names = name_programs()
     progs += names
     sizes = [300, 450, 600, 800] * 4 if thorough else [120, 200, 300]
